@@ -29,6 +29,10 @@ from vlib import log, CheckError
 HERE_FILES = [os.path.join(vlib.VERIF, p) for p in (
     "spec/Utf8Topic.tla", "spec/TraceUtf8.tla", "spec/TraceUtf8.cfg", "harness/vec_utf8.cpp", "tools/stage_c16.py")]
 MAX_EXAMPLES = 200          # offending vectors kept per (clause, class)
+# One JVM per shard, NCPU shards at once: keep each JVM's helper threads few.  Short runs (quick) are
+# dominated by JIT warm-up, C1 only is 3-6x faster there (measured: 16 shards 20 s -> 3.3 s).
+JAVA_OPTS = dict(quick="-Xmx2g -Xss16m -XX:ParallelGCThreads=2 -XX:TieredStopAtLevel=1",
+                 thorough="-Xmx3g -Xss16m -XX:ParallelGCThreads=2 -XX:CICompilerCount=2")
 
 
 # ------------------------------------------------------------------------------------------ signature classes
@@ -102,16 +106,22 @@ def show(e):
 # ------------------------------------------------------------------------------------------ one shard
 def _shard(args):
     """TLC on one result file + classification of its VIOL lines (runs in a worker process)"""
-    trace, tlcout, heap = args
+    trace, tlcout, heap = args          # heap: java options
     nlines = 0
     with open(trace) as f:
         for _ in f: nlines += 1
     try:
         rc, out = vlib.tlc("TraceUtf8.tla", "TraceUtf8.cfg", env=dict(TRACE=trace), workers=1, timeout=3000,
-                           java_opts="-Xmx%s -Xss16m" % heap, extra="-noGenerateSpecTE")
+                           java_opts=heap, extra="-noGenerateSpecTE")
     except CheckError as e:
         return dict(ok=False, err=str(e))
-    with open(tlcout, "w") as f: f.write(out)
+    with open(tlcout, "w") as f:        # TLC's output; of very many VIOL lines only the first 20000 are kept
+        kept = 0
+        for line in out.splitlines(True):
+            if "VIOL " in line:
+                kept += 1
+                if kept > 20000: continue
+            f.write(line)
     gen, dist = vlib.tlc_stats(out)
     viol = []
     for line in out.splitlines():
@@ -176,7 +186,7 @@ def run_vectors(tier, seed):
     jobs = []
     for i in range(nshards):
         p = os.path.join(d, "vec.ndjson.%02d" % i) if nshards > 1 else os.path.join(d, "vec.ndjson")
-        jobs.append((p, os.path.join(d, "tlc_%02d.txt" % i), "4g" if tier == "thorough" else "2g"))
+        jobs.append((p, os.path.join(d, "tlc_%02d.txt" % i), JAVA_OPTS[tier]))
     with cf.ProcessPoolExecutor(max_workers=nshards) as ex:
         outs = list(ex.map(_shard, jobs))
     r = dict(vectors=nvec, lines=0, states=0, transitions=0, nviol=0, groups={}, dir=d, cached=False,
@@ -256,9 +266,9 @@ def stage(pid, tier, seed):
                 samples=r["samples"] + [dict(x["example"], clause=x["clause"], cls=x["cls"]) for x in worst[:3]],
                 wall_s=r["wall_s"], build_s=r["build_s"], enumerate_s=r["enumerate_s"], tlc_s=r["tlc_s"],
                 cached=r["cached"], dir=r["dir"],
-                rule="exhaustive over a 41-byte boundary alphabet up to length %d, every range edge +-1 in every encoding "
+                rule="all strings of 1 and 2 bytes, all strings over a 41-byte boundary alphabet up to length %d, every range edge +-1 in every encoding "
                      "length, topic/$share structure strings, length edges 65534..65537, seeded random strings%s"
-                     % (4 if tier == "thorough" else 3, ", all 1114112 code points, all over-long forms" if tier == "thorough" else ""))
+                     % (4 if tier == "thorough" else 3, ", all 1114112 code points, all over-long forms, 3-byte strings with one free position restricted to the alphabet" if tier == "thorough" else ""))
 
 
 def replay(pid, path):
@@ -271,7 +281,7 @@ def replay(pid, path):
     out = os.path.join(d, "vec.ndjson")
     rc, txt = vlib.sh([os.path.join(vlib.BIN, "vec_utf8"), "replay", src, out], timeout=600)
     if rc != 0: raise CheckError("vec_utf8 replay failed: " + txt[-2000:])
-    o = _shard((out, os.path.join(d, "tlc.txt"), "2g"))
+    o = _shard((out, os.path.join(d, "tlc.txt"), JAVA_OPTS["quick"]))
     if not o["ok"]: raise CheckError("C16 replay: " + o["err"])
     if o["selftest"]: raise CheckError("C16 replay: reference cross-check failed: %s" % (o["selftest"],))
     new, nknown, _ = report(pid, o["groups"], tag="-replayed")
